@@ -4,7 +4,21 @@
   loops of bdhp.go.  `doubleHashDictionary.processSegment`, the abstraction of the two tables (`setDD`, `HOK`) and the
   normal forms of `ProbeW.dhpProbeW` are those of GenDHPParseLemmas; `LcsSpec`, `gen_backExt` those of
   GenBHPParseLemmas.
+
+  Shape independence (notes/robust.md).  No lemma of this file NAMES a generated loop function: the numbering
+  `bdhp_Parse_loop_n` changes whenever a loop is added, removed or moved into a helper.  Instead
+    * the inner loops are characterised generically (`F` with its defining equation as a hypothesis) and used in the
+      "at" form `Res.bind (F …) K = G → … → K v = G`: `F` and the continuation `K` are taken from the hypothesis by
+      unification, i.e. the lemma speaks about whatever function the generated text calls at that point; the defining
+      equation is discharged by `unfold_head` (rewrites with the equation of the function at the head of the left-hand
+      side, whatever its name);
+    * the two outer loops are denoted `callee_loop% bdhp_Parse 0/1` — the first/second loop function called directly in
+      the body of the generated `bdhp_Parse` (a term elaborator that reads the generated definition; it produces the
+      constant itself, no wrapper);
+    * `bind_assoc`: straight-line code in a join (`Res.bind (Res.bind m f) K`) and the same code inline or in an
+      extracted helper (unfolded by `simp only [gen_helper]`) have the same normal form.
 -/
+import Lean
 import LzModel.Generated.CodeBDHPParse
 import LzProofs.GenDHPParseLemmas
 import LzProofs.GenBHPParseLemmas
@@ -16,19 +30,197 @@ set_option linter.unusedVariables false
 namespace LZ.GenBDHPParse
 open LZ LZ.Gen LZ.GenBuf LZ.GenHash LZ.GenHPParse LZ.GenParse LZ.GenDHPParse LZ.GenBHPParse
 
+/-! ## name-independent access to generated functions -/
+
+section Meta
+open Lean Elab Tactic Meta Term
+
+/-- the loop functions (constants named `…_loop_n`) occurring in `e`, in order of first occurrence -/
+partial def collectLoops (e : Expr) (acc : Array Name) : Array Name :=
+  match e with
+  | .app f a => collectLoops a (collectLoops f acc)
+  | .lam _ t b _ => collectLoops b (collectLoops t acc)
+  | .forallE _ t b _ => collectLoops b (collectLoops t acc)
+  | .letE _ t v b _ => collectLoops b (collectLoops v (collectLoops t acc))
+  | .mdata _ b => collectLoops b acc
+  | .proj _ _ b => collectLoops b acc
+  | .const n _ =>
+    if (n.toString.splitOn "_loop_").length > 1 && !acc.contains n then acc.push n else acc
+  | _ => acc
+
+/-- `callee_loop% f n` : the `n`-th (from 0) loop function called directly in the body of the generated function `f`
+    (the constant itself).  Only used in STATEMENTS of auxiliary lemmas; the main theorems do not mention loops. -/
+elab "callee_loop% " f:ident n:num : term => do
+  let c ← realizeGlobalConstNoOverloadWithInfo f
+  let info ← getConstInfo c
+  let some v := info.value? | throwError "callee_loop%: {c} has no body"
+  let loops := collectLoops v #[]
+  let some l := loops[n.getNat]? | throwError "callee_loop%: {c} calls only {loops.size} loop functions"
+  mkConstWithLevelParams l
+
+/-- the head constant of the left-hand side of an equation -/
+def lhsHead (t : Expr) : MetaM Name := do
+  let t ← instantiateMVars t
+  let some (_, lhs, _) := t.eq? | throwError "unfold_head: not an equation"
+  let .const n _ := lhs.getAppFn | throwError "unfold_head: the left-hand side is not an application of a constant"
+  return n
+
+/-- `unfold_head` / `unfold_head at h`: rewrite with the defining equation of the function at the head of the
+    left-hand side of the goal / of `h` — whatever its name is -/
+elab "unfold_head" : tactic => withMainContext do
+  let n ← lhsHead (← getMainTarget)
+  evalTactic (← `(tactic| rw [$(mkIdent n):ident]))
+
+@[inherit_doc tacticUnfold_head]
+elab "unfold_head" " at " h:ident : tactic => withMainContext do
+  let d ← getLocalDeclFromUserName h.getId
+  let n ← lhsHead d.type
+  evalTactic (← `(tactic| rw [$(mkIdent n):ident] at $h:ident))
+
+/-- `unfold_helpers at h`: unfold (delta + equation, no simplification) the unexported helpers the translator followed
+    automatically — the constants of `h` carrying the attribute `gen_helper`, whatever they are — except the byte loads,
+    which the shared lemmas (`gen_load_ok`, `gen_getLE64`, …) are about -/
+elab "unfold_helpers" " at " h:ident : tactic => do
+  let some ext ← getSimpExtension? `gen_helper | throwError "unfold_helpers: no simp attribute gen_helper"
+  let thms ← ext.getTheorems
+  let keep : List Name := [``LZ.Gen._getLE64, ``LZ.Gen.getLE64, ``LZ.Gen._getLE32]
+  for _ in [0:8] do
+    let cs ← withMainContext do
+      let d ← getLocalDeclFromUserName h.getId
+      let t ← instantiateMVars d.type
+      pure (t.getUsedConstants.filter fun n => thms.isDeclToUnfold n && !keep.contains n)
+    if cs.isEmpty then break
+    for c in cs do
+      evalTactic (← `(tactic| unfold $(mkIdent c):ident at $h:ident))
+
+end Meta
+
+/-- omega after normalising `Int.ofNat` -/
+macro "omegaI" : tactic =>
+  `(tactic| first | omega | rfl | (simp only [Int.ofNat_eq_natCast] at * <;> omega))
+
+section Meta2
+open Lean Elab Tactic Meta Term
+
+/-- `decide_if at h`: the first `if` of `h` (outermost, leftmost; whatever the spelling of its condition `c`) is
+    decided from the context: `c` or `¬ c` is proved by omega, then `if_pos` / `if_neg` rewrites.  Fails when omega
+    proves neither. -/
+elab "decide_if" " at " h:ident : tactic => withMainContext do
+  let d ← getLocalDeclFromUserName h.getId
+  let t ← instantiateMVars d.type
+  let some e := t.find? (fun e => e.isAppOfArity ``ite 5 && !e.hasLooseBVars)
+    | throwError "decide_if: no if-then-else in {h}"
+  let c := e.getArg! 1
+  let tryProve (p : Expr) : TacticM Bool := do
+    let s ← saveState
+    try
+      let m ← mkFreshExprMVar p
+      let gs ← Tactic.run m.mvarId! (withoutRecover (evalTactic (← `(tactic| omegaI))))
+      unless gs.isEmpty do throwError "open goals"
+      let pf ← instantiateMVars m
+      liftMetaTactic fun g => do
+        let g ← g.assert `hc_dec p pf
+        let (_, g) ← g.intro1P
+        return [g]
+      return true
+    catch _ =>
+      s.restore
+      return false
+  if ← tryProve c then
+    evalTactic (← `(tactic| (rw [if_pos $(mkIdent `hc_dec)] at $h:ident; clear $(mkIdent `hc_dec))))
+  else if ← tryProve (mkNot c) then
+    evalTactic (← `(tactic| (rw [if_neg $(mkIdent `hc_dec)] at $h:ident; clear $(mkIdent `hc_dec))))
+  else
+    throwError "decide_if: omega decides neither{indentExpr c}\nnor its negation"
+
+/-- `first_loop% h n`: the first (outermost, leftmost) application of a generated loop function `…_loop_k` in the
+    hypothesis `h`, without its last `n` arguments (the fuel and the loop state) — "the loop the text calls next" -/
+elab "first_loop% " h:ident n:num : term => do
+  let d ← getLocalDeclFromUserName h.getId
+  let t ← instantiateMVars d.type
+  let n := n.getNat
+  let isLoop (e : Expr) : Bool :=
+    e.isApp && e.getAppNumArgs ≥ n &&
+    (match e.getAppFn with
+     | .const c _ => (c.toString.splitOn "_loop_").length > 1
+     | _ => false) &&
+    !(mkAppN e.getAppFn (e.getAppArgs.extract 0 (e.getAppNumArgs - n))).hasLooseBVars
+  let some e := t.find? isLoop | throwError "first_loop%: no call of a loop function in {h}"
+  return mkAppN e.getAppFn (e.getAppArgs.extract 0 (e.getAppNumArgs - n))
+
+end Meta2
+
+/-- `rw [ite_int_eq (v := v) (by omegaI)] at h`: the first integer-valued `if` of `h` (a clamp, in any spelling) is `v` -/
+theorem ite_int_eq {c : Prop} [Decidable c] {a b v : Int} (h : (if c then a else b) = v) :
+    (if c then a else b) = v := h
+
+theorem bind_assoc {α β γ : Type} (m : Res α) (f : α → Res β) (g : β → Res γ) :
+    Res.bind (Res.bind m f) g = Res.bind m (fun a => Res.bind (f a) g) := by
+  cases m <;> rfl
+
 /-- a `bdhp` with other tables -/
 @[reducible] def setTB (s : Gen.bdhp) (t1 t2 : GSlice hashEntry) : Gen.bdhp :=
   { s with doubleHashDictionary := setDD s.doubleHashDictionary t1 t2 }
 
-theorem loop2_spec (grow : Nat → Nat → Nat) (lcs : Slice → Slice → Int) (x : UInt64) :
-    Loop2Spec (bdhp_Parse_loop_2 grow lcs x) :=
-  loop2_of_eqn _ (fun fuel k r q => by rw [bdhp_Parse_loop_2]; rfl)
+/-! ## the end of an iteration: the next call of the greedy loop, up to integer arithmetic -/
 
-theorem loop6_spec (grow : Nat → Nat → Nat) (lcs : Slice → Slice → Int) (x : UInt64) :
-    Loop2Spec (bdhp_Parse_loop_6 grow lcs x) :=
-  loop2_of_eqn _ (fun fuel k r q => by rw [bdhp_Parse_loop_6]; rfl)
+theorem loop_congr {α : Type} (F : Int → Gen.bdhp → Block' → Int → α) {i i' : Int} {s s' : Gen.bdhp} {b b' : Block'}
+    {l l' : Int} (hi : i = i') (hs : s = s') (hb : b = b') (hl : l = l') : F i s b l = F i' s' b' l' := by
+  rw [hi, hs, hb, hl]
 
-/-- a re-indexing loop of `Parse` on the table of h1 alone (loop_4, loop_7) -/
+theorem blk_eq {S : List Gen.Seq} {q q' : Gen.Seq} {l l' : Slice} (hq : q = q') (hl : l = l') :
+    ({ Sequences := S ++ [q], Literals := l } : Block') = { Sequences := S ++ [q'], Literals := l' } := by
+  rw [hq, hl]
+
+theorem seq_eq {a b c : Int} {n1 n2 n3 : Nat} (ha : a = (n1 : Int)) (hb : b = (n2 : Int)) (hc : c = (n3 : Int)) :
+    ({ LitLen := UInt32.ofInt a, MatchLen := UInt32.ofInt b, Offset := UInt32.ofInt c, Aux := 0 } : Gen.Seq) =
+      seqRep { litLen := n1, matchLen := n2, offset := n3 } := by
+  rw [ha, hb, hc]; rfl
+
+/-! ## the forward extension -/
+
+/-- the block `if k == 8 { … for len(q) >= 8 {…}; if len(q) > 0 {…}; match: }` in front of a continuation; `F` (the
+    translated inner loop) and `K` are taken from `hG` -/
+theorem extBlock_at {β : Type} (F : Nat → Int → Slice → Slice → Res (Nat × Int × Slice × Slice))
+    (K : Int → Res β) (G : Res β) (fuel : Nat) (A : List UInt8) (L i j k8 : Nat) (ia : Int)
+    (hG : Res.bind (extBlock F fuel { arr := A, len := L } ia (Int.ofNat j) ((k8 : Nat) : Int)) K = G)
+    (hF : Loop2Spec F) (kk : Nat) (hia : ia = (i : Int))
+    (hj : j < i) (hk8 : k8 ≤ L - i) (hLA : L ≤ A.length) (hfuel : L - i ≤ fuel)
+    (hme : BytesW.matchExt (A.take L) i j k8 = some kk) : K ((kk : Nat) : Int) = G := by
+  rw [extBlock_eq F hF fuel A L i j k8 kk ia hia hj hk8 hLA hfuel hme, bind_ok] at hG
+  exact hG
+
+/-! ## the backward extension -/
+
+/-- the two slices of the backward extension in front of a continuation `K` (taken from `hG`; `back` =
+    `min (i - litIndex) j` in any spelling: the lower bound `lo` is taken from `hG`, the equation `hlo` is left to the
+    caller): `lcs` of the two slices is the model's `backExt` -/
+theorem backLcs_at {β : Type} (lcs : Slice → Slice → Int) (hlcs : LcsSpec lcs) (A : List UInt8) (L i li j : Nat)
+    (lo ia : Int) (K : Slice → Slice → Res β) (G : Res β)
+    (hG : (Res.bind (Slice.slice { arr := A, len := L } lo (Int.ofNat j)) fun t_1 =>
+           Res.bind (Slice.slice { arr := A, len := L } 0 ia) fun t_2 => K t_1 t_2) = G)
+    (hlo : lo = ((j - Min.min (i - li) j : Nat) : Int)) (hia : ia = (i : Int)) (hb : li < i) (hj : j < i) (hi : i ≤ L)
+    (hLA : L ≤ A.length) :
+    ∃ s1 s2, lcs s1 s2 = ((backExt (A.take L) i li j : Nat) : Int) ∧ K s1 s2 = G := by
+  rw [slice_okI _ _ (Int.ofNat j) (j - Min.min (i - li) j) j hlo rfl (by omega) (by show j ≤ A.length; omega), bind_ok,
+    slice_okI _ 0 ia 0 i rfl hia (Nat.zero_le _) (by show i ≤ A.length; omega), bind_ok] at hG
+  refine ⟨_, _, ?_, hG⟩
+  rw [hlcs]
+  have hd : lcsLen ({ arr := A.drop (j - Min.min (i - li) j), len := j - (j - Min.min (i - li) j) } : Slice).data
+      ({ arr := A.drop 0, len := i - 0 } : Slice).data = backExt (A.take L) i li j := by
+    unfold backExt
+    rw [if_pos hb, data_drop, data_mk]
+    show _ = lcsLen (((A.take L).take j).drop (j - Min.min (i - li) j)) ((A.take L).take i)
+    rw [List.take_take, List.take_take, Nat.min_eq_left (show j ≤ L by omega), Nat.min_eq_left (show i ≤ L by omega)]
+    simp only [List.drop_zero, Nat.sub_zero]
+  rw [hd]
+
+theorem backExt_zero (p : List Byte) (i li j : Nat) (h : ¬ li < i) : backExt p i li j = 0 := by
+  unfold backExt; rw [if_neg h]
+
+/-! ## the re-indexing loops -/
+
+/-- a re-indexing loop of `Parse` on the table of h1 alone -/
 theorem loopH1_eq (F : Nat → Int → Gen.bdhp → Res (Int × Gen.bdhp)) (b : Int) (_p : Slice)
     (heq : ∀ fuel j s, F (fuel + 1) j s =
       if j < b then
@@ -56,50 +248,61 @@ theorem loopH1_eq (F : Nat → Int → Gen.bdhp → Res (Int × Gen.bdhp)) (b : 
   subst e6
   exact ⟨_, h1, h3, h5⟩
 
-theorem loop4_heq (grow : Nat → Nat → Nat) (lcs : Slice → Slice → Int) (b : Int) (x : UInt64) (_p : Slice) (h pos : UInt32)
-    (fuel : Nat) (j : Int) (s : Gen.bdhp) :
-    bdhp_Parse_loop_4 grow lcs b x _p h pos (fuel + 1) j s =
+/-- the same in front of a continuation: `F`, its bound `b`, `_p` and `K` are taken from `hG` and from the proof of
+    the defining equation `heq` (`by intros; unfold_head; rfl` at the use site) -/
+theorem loopH1_at {β : Type} (F : Nat → Int → Gen.bdhp → Res (Int × Gen.bdhp)) (b : Int) (_p : Slice)
+    (K : Int × Gen.bdhp → Res β) (G : Res β) (fuel : Nat) (a : Int) (s : Gen.bdhp)
+    (hG : Res.bind (F fuel a s) K = G)
+    (heq : ∀ fuel j s, F (fuel + 1) j s =
       if j < b then
         Res.bind (Slice.slice _p j (Int.ofNat _p.len)) fun t_1 =>
         Res.bind (LZ.Gen._getLE64 t_1) fun r_2 =>
         Res.bind (storeKey s.doubleHashDictionary.h1 s.doubleHashDictionary.h1.table r_2 j) fun t_3 =>
-        bdhp_Parse_loop_4 grow lcs b x _p h pos fuel (j + 1) (setTB s t_3 s.doubleHashDictionary.h2.table)
-      else Res.ok (j, s) := by
-  rw [bdhp_Parse_loop_4]; rfl
+        F fuel (j + 1) (setTB s t_3 s.doubleHashDictionary.h2.table)
+      else Res.ok (j, s))
+    (n j : Nat)
+    (ha : a = (j : Int)) (hn : n = (b - a).toNat) (hf : n < fuel) (hr : n = 0 ∨ j + n + 7 ≤ _p.len)
+    (c1 : TCtx s.doubleHashDictionary.h1.mask s.doubleHashDictionary.h1.shift s.doubleHashDictionary.h1.inputLen _p)
+    (ht1 : TOK s.doubleHashDictionary.h1.shift s.doubleHashDictionary.h1.table) :
+    ∃ t1, TOK s.doubleHashDictionary.h1.shift t1 ∧
+      ProbeW.insertRangeW (ofHash s.doubleHashDictionary.h1) _p.data j n = some (ofHashT s.doubleHashDictionary.h1 t1) ∧
+      K (((j + n : Nat) : Int), setTB s t1 s.doubleHashDictionary.h2.table) = G := by
+  obtain ⟨t1, h1, h2, h3⟩ := loopH1_eq F b _p heq n fuel j a s ha hn hf hr c1 ht1
+  rw [h3, bind_ok] at hG
+  exact ⟨t1, h1, h2, hG⟩
 
-theorem loop7_heq (grow : Nat → Nat → Nat) (lcs : Slice → Slice → Int) (b : Int) (x : UInt64) (_p : Slice) (h : UInt32)
-    (fuel : Nat) (j : Int) (s : Gen.bdhp) :
-    bdhp_Parse_loop_7 grow lcs b x _p h (fuel + 1) j s =
+/-- the first re-indexing loop after a match of the first greedy loop (`for j = i + 1; j < b; j++ { … }`): in bdhp.go
+    it updates the table of h1 ONLY; the loop state also carries the variables `x`, `h` of the enclosing loop, which
+    the body assigns -/
+theorem loopXH_at {β : Type} (F : Nat → Int → UInt64 → UInt32 → Gen.bdhp → Res (Int × UInt64 × UInt32 × Gen.bdhp))
+    (b : Int) (_p : Slice) (K : Int × UInt64 × UInt32 × Gen.bdhp → Res β) (G : Res β)
+    (fuel : Nat) (a : Int) (x : UInt64) (h : UInt32) (s : Gen.bdhp)
+    (hG : Res.bind (F fuel a x h s) K = G)
+    (heq : ∀ fuel j x h s, F (fuel + 1) j x h s =
       if j < b then
         Res.bind (Slice.slice _p j (Int.ofNat _p.len)) fun t_1 =>
         Res.bind (LZ.Gen._getLE64 t_1) fun r_2 =>
         Res.bind (storeKey s.doubleHashDictionary.h1 s.doubleHashDictionary.h1.table r_2 j) fun t_3 =>
-        bdhp_Parse_loop_7 grow lcs b x _p h fuel (j + 1) (setTB s t_3 s.doubleHashDictionary.h2.table)
-      else Res.ok (j, s) := by
-  rw [bdhp_Parse_loop_7]; rfl
-
-/-- loop_3 of `Parse` (`for j = i + 1; j < b; j++ { … }`): in bdhp.go it updates the table of h1 ONLY; the loop
-    state also carries the variables `x`, `h` of the enclosing loop, which the body assigns -/
-theorem loop3_eq (grow : Nat → Nat → Nat) (lcs : Slice → Slice → Int) (b : Int) (y : UInt64) (_p : Slice) (pos : UInt32)
-    (n fuel j : Nat) (a : Int) (x : UInt64) (h : UInt32) (s : Gen.bdhp)
+        F fuel (j + 1) (r_2 &&& s.doubleHashDictionary.h1.mask)
+          (LZ.Gen.hashValue (r_2 &&& s.doubleHashDictionary.h1.mask) s.doubleHashDictionary.h1.shift)
+          (setTB s t_3 s.doubleHashDictionary.h2.table)
+      else Res.ok (j, x, h, s))
+    (n j : Nat)
     (ha : a = (j : Int)) (hn : n = (b - a).toNat) (hf : n < fuel) (hr : n = 0 ∨ j + n + 7 ≤ _p.len)
     (c1 : TCtx s.doubleHashDictionary.h1.mask s.doubleHashDictionary.h1.shift s.doubleHashDictionary.h1.inputLen _p)
     (ht1 : TOK s.doubleHashDictionary.h1.shift s.doubleHashDictionary.h1.table) :
     ∃ t1 x' h', TOK s.doubleHashDictionary.h1.shift t1 ∧
       ProbeW.insertRangeW (ofHash s.doubleHashDictionary.h1) _p.data j n = some (ofHashT s.doubleHashDictionary.h1 t1) ∧
-      bdhp_Parse_loop_3 grow lcs b y _p pos fuel a x h s =
-        Res.ok (((j + n : Nat) : Int), x', h', setTB s t1 s.doubleHashDictionary.h2.table) := by
+      K (((j + n : Nat) : Int), x', h', setTB s t1 s.doubleHashDictionary.h2.table) = G := by
   obtain ⟨s', tA, h1, h3, h5, h6, t1', hs'⟩ :=
     reindex1 (σ := UInt64 × UInt32 × Gen.bdhp)
-      (fun fuel j σ => bdhp_Parse_loop_3 grow lcs b y _p pos fuel j σ.1 σ.2.1 σ.2.2) b _p
+      (fun fuel j σ => F fuel j σ.1 σ.2.1 σ.2.2) b _p
       (fun σ => σ.2.2.doubleHashDictionary.h1)
       (fun σ y t => (y &&& σ.2.2.doubleHashDictionary.h1.mask,
         LZ.Gen.hashValue (y &&& σ.2.2.doubleHashDictionary.h1.mask) σ.2.2.doubleHashDictionary.h1.shift,
         setTB σ.2.2 t σ.2.2.doubleHashDictionary.h2.table))
       (fun _ _ _ => rfl)
-      (fun fuel j σ => by
-        show bdhp_Parse_loop_3 grow lcs b y _p pos (fuel + 1) j σ.1 σ.2.1 σ.2.2 = _
-        rw [bdhp_Parse_loop_3]; rfl)
+      (fun fuel j σ => heq fuel j σ.1 σ.2.1 σ.2.2)
       (fun σ σ' => ∃ t1, σ'.2.2 = setTB σ.2.2 t1 σ.2.2.doubleHashDictionary.h2.table)
       (fun σ => ⟨σ.2.2.doubleHashDictionary.h1.table, rfl⟩)
       (fun σ σ' y t ⟨t1, h⟩ => ⟨t, by show setTB σ'.2.2 t _ = _; rw [h]⟩)
@@ -109,6 +312,7 @@ theorem loop3_eq (grow : Nat → Nat → Nat) (lcs : Slice → Slice → Int) (b
   subst hs'
   have e6 : t1' = tA := congrArg Gen.hash.table h6
   subst e6
-  exact ⟨_, x', h', h1, h3, h5⟩
+  rw [show F fuel a x h s = _ from h5, bind_ok] at hG
+  exact ⟨_, x', h', h1, h3, hG⟩
 
 end LZ.GenBDHPParse
